@@ -49,6 +49,12 @@ def fget(f, k):
     return f[k - 1]
 
 
+def shared_inv(ob):
+    """ONE callable registered as an invariant on every defining interface:
+    it runs once per interface of the resolution order that lists it"""
+    raise Invalid('shared')
+
+
 class World:
     serial = 0
 
@@ -87,7 +93,7 @@ class World:
                 # 'z' is a tag whose VALUE is None, 'f' one whose value is
                 # falsy: defined is defined
                 attrs['__interface_tagged_values__'] = {
-                    't': n, 'u%d' % n: n, 'invariants': [inv],
+                    't': n, 'u%d' % n: n, 'invariants': [inv, shared_inv],
                     'z': None, 'f': 0 if n % 2 else ''}
             else:
                 attrs['__interface_tagged_values__'] = {'u%d' % n: n}
@@ -379,7 +385,11 @@ def check_accessors(w, n, I, owner, invs, sro, ctx):
         raised = False
     except Invalid:
         raised = True
-    got = sorted(e.args[0] for e in errs)
+    nshared = sum(1 for e in errs if e.args[0] == 'shared')
+    if nshared != len(invs):
+        mism(ctx, 'I%d.validateInvariants(errors): failures of the invariant '
+             'callable that several interfaces share' % n, len(invs), nshared)
+    got = sorted(e.args[0] for e in errs if e.args[0] != 'shared')
     if got != sorted(invs):
         mism(ctx, 'I%d.validateInvariants(errors) collected' % n,
              sorted(invs), got)
